@@ -8,6 +8,7 @@ import (
 	"io"
 	"math/rand"
 	"os"
+	"os/exec"
 	"path/filepath"
 	"sort"
 	"strings"
@@ -288,6 +289,68 @@ func runC16(cfg Config) {
 			monitor("verify removed a non-chunk file", caseLine, "")
 		}
 	}
+	// the prune command with one or more index files: what is kept is the union of what they reference
+	if self, err := os.Executable(); err == nil {
+		bin := filepath.Join(filepath.Dir(self), "desync")
+		if _, err := os.Stat(bin); err != nil {
+			rep.Notes = append(rep.Notes, "desync binary not built: `desync prune` runs skipped")
+		} else {
+			for it := 0; it < cfg.N(6, 60); it++ {
+				dir := filepath.Join(cfg.Work, "clistore")
+				os.RemoveAll(dir)
+				os.MkdirAll(dir, 0755)
+				ls, _ := desync.NewLocalStore(dir, desync.StoreOptions{})
+				var all []desync.IndexChunk
+				for k := 0; k < 6+rng.Intn(10); k++ {
+					d := randBytes(rng, 20+rng.Intn(200))
+					c := desync.NewChunk(d)
+					ls.StoreChunk(c)
+					all = append(all, desync.IndexChunk{ID: c.ID(), Size: uint64(len(d))})
+				}
+				nidx := 1 + rng.Intn(3)
+				keep := map[desync.ChunkID]bool{}
+				var args []string
+				args = append(args, "prune", "-s", dir, "--yes")
+				for q := 0; q < nidx; q++ {
+					var cs []desync.IndexChunk
+					var start uint64
+					for _, c := range all {
+						if rng.Intn(3) == 0 {
+							c.Start = start
+							start += c.Size
+							cs = append(cs, c)
+							keep[c.ID] = true
+						}
+					}
+					ip := filepath.Join(cfg.Work, fmt.Sprintf("prune%d.caibx", q))
+					f, _ := os.Create(ip)
+					(&desync.Index{Index: desync.FormatIndex{FeatureFlags: desync.CaFormatExcludeNoDump | desync.CaFormatSHA512256, ChunkSizeMin: 16, ChunkSizeAvg: 64, ChunkSizeMax: 256}, Chunks: cs}).WriteTo(f)
+					f.Close()
+					args = append(args, ip)
+				}
+				cmd := exec.Command(bin, args...)
+				cmd.Env = append(os.Environ(), "HOME="+cfg.Work)
+				out, err := cmd.CombinedOutput()
+				caseLine := fmt.Sprintf("cli.prune indexes=%d chunks=%d referenced=%d it=%d seed=%d", nidx, len(all), len(keep), it, cfg.Seed)
+				rep.Count(caseLine, nidx > 1, "cli-prune", fmt.Sprintf("indexes:%d", nidx))
+				if err != nil {
+					monitor("desync prune failed: "+clip(string(out), 300), caseLine, "")
+					continue
+				}
+				for _, c := range all {
+					has, _ := ls.HasChunk(c.ID)
+					if keep[c.ID] && !has {
+						monitor("desync prune deleted a chunk that one of the given indexes references", caseLine, "")
+						break
+					}
+					if !keep[c.ID] && has {
+						monitor("desync prune reported success but left an unreferenced chunk", caseLine, "")
+						break
+					}
+				}
+			}
+		}
+	}
 	rep.Write(cfg.Out)
 }
 
@@ -405,6 +468,62 @@ func runC20(cfg Config) {
 		}
 		if strings.HasSuffix(name, ".cacnk") != gone {
 			monitor("pruning the compressed store with an empty keep-set: "+name+" gone="+fmt.Sprint(gone), "prune shared", "")
+		}
+	}
+	// chunks that travel from a store of one format to a store of the other (cache, chop into another
+	// store, copy): what the target keeps must be in the target's own format whatever the chunk
+	// object carried (plain data, storage bytes of the other format, verified or not)
+	for it := 0; it < cfg.N(120, 3000); it++ {
+		data := randBytes(rng, 1+rng.Intn(400))
+		if rng.Intn(3) == 0 {
+			data = bytes.Repeat([]byte{byte(rng.Intn(256))}, 17+rng.Intn(20000))
+		}
+		srcUnc, dstUnc, skip := rng.Intn(2) == 0, rng.Intn(2) == 0, rng.Intn(2) == 0
+		sdir, ddir := filepath.Join(cfg.Work, "xsrc"), filepath.Join(cfg.Work, "xdst")
+		os.RemoveAll(sdir)
+		os.RemoveAll(ddir)
+		os.MkdirAll(sdir, 0755)
+		os.MkdirAll(ddir, 0755)
+		src, _ := desync.NewLocalStore(sdir, desync.StoreOptions{Uncompressed: srcUnc, SkipVerify: skip})
+		dst, _ := desync.NewLocalStore(ddir, desync.StoreOptions{Uncompressed: dstUnc})
+		orig := desync.NewChunk(data)
+		id := orig.ID()
+		src.StoreChunk(orig)
+		c, err := src.GetChunk(id)
+		caseLine := fmt.Sprintf("cross-format src-uncompressed=%v dst-uncompressed=%v src-skipverify=%v data=%s", srcUnc, dstUnc, skip, clip(hx(data), 200))
+		rep.Count(caseLine, srcUnc != dstUnc, "cross-format", fmt.Sprintf("src-unc:%v/dst-unc:%v/skip:%v", srcUnc, dstUnc, skip))
+		if err != nil {
+			monitor("reading back a chunk just stored failed: "+err.Error(), caseLine, "")
+			continue
+		}
+		if err := dst.StoreChunk(c); err != nil {
+			monitor("storing a chunk fetched from another local store failed: "+err.Error(), caseLine, "")
+			continue
+		}
+		sid := hx(id[:])
+		ext := ".cacnk"
+		if dstUnc {
+			ext = ""
+		}
+		raw, err := os.ReadFile(filepath.Join(ddir, sid[:4], sid+ext))
+		if err != nil {
+			monitor("the target store did not create the file its own format prescribes: "+err.Error(), caseLine, "")
+			continue
+		}
+		if dstUnc {
+			if !bytes.Equal(raw, data) {
+				monitor(fmt.Sprintf("an uncompressed store holds %d bytes that are not the chunk's plain data (%d bytes)", len(raw), len(data)), caseLine, "")
+			}
+		} else {
+			out, err := desync.Decompress(nil, raw)
+			if err != nil || !bytes.Equal(out, data) {
+				monitor(fmt.Sprintf("a compressed store holds %d bytes that do not decompress to the chunk: %v", len(raw), err), caseLine, "")
+			}
+		}
+		if back, err := dst.GetChunk(id); err != nil {
+			monitor("the chunk does not read back from the target store: "+err.Error(), caseLine, "")
+		} else if b, _ := back.Data(); !bytes.Equal(b, data) {
+			monitor("the chunk reads back changed from the target store", caseLine, "")
 		}
 	}
 	rep.Write(cfg.Out)
